@@ -200,9 +200,44 @@ def _values_from_model(model, P):
     return model_values(P, model)
 
 
+def abstract_divisions(formulas):
+    """Cut-point abstraction: every fp.div sub-term is replaced by a fresh unconstrained float64 constant (the same constant
+    for the same term).  The abstracted conjunction is weaker than the original, so 'unsat' carries over; 'sat' does not."""
+    seen, divs = set(), {}
+
+    def walk(t):
+        stack = [t]
+        while stack:
+            x = stack.pop()
+            i = x.get_id()
+            if i in seen:
+                continue
+            seen.add(i)
+            if z3.is_app(x):
+                if x.decl().kind() == z3.Z3_OP_FPA_DIV:
+                    divs[i] = x
+                stack.extend(x.children())
+
+    for f in formulas:
+        walk(f)
+    if not divs:
+        return None
+    # innermost-first is not needed: substitute replaces the outermost occurrence, which removes nested ones with it
+    pairs = [(t, z3.FP(f"absdiv!{i}", core.F64)) for i, t in divs.items()]
+    return [z3.substitute(f, *pairs) for f in formulas]
+
+
 def check(formulas, timeout_s, portfolio, P, want_z3_model=False):
     """Satisfiability of the conjunction.  Returns (status, model, info); model = (values, uf tables[, z3 model])."""
     t0 = time.time()
+    if portfolio and not want_z3_model and getattr(P.ctx, "abstract_div", True):
+        af = abstract_divisions(formulas)
+        if af is not None:
+            st, _, info = _portfolio(af, min(timeout_s, max(20.0, timeout_s / 3)), P, t0, want_model=False)
+            if st == "unsat":
+                info["solver"] = "abs-div:" + info["solver"]
+                return st, None, info
+            t0 = time.time()
     if not portfolio or want_z3_model:
         s = z3.Solver()
         s.set("timeout", int(timeout_s * 1000))
@@ -291,7 +326,7 @@ def to_smt2(formulas, terms, logic=None):
     return head + body
 
 
-def _portfolio(formulas, timeout_s, P, t0):
+def _portfolio(formulas, timeout_s, P, t0, want_model=True):
     terms = []
     kinds = []
     for name, (kind, c) in P.decls.items():
@@ -310,6 +345,8 @@ def _portfolio(formulas, timeout_s, P, t0):
             seen.add(t.get_id())
             uterms.append(t)
     logic = "QF_UFBVFP" if P.ctx.profile == "fp" else None
+    if not want_model:
+        uterms = []
     text = to_smt2(formulas, uterms, "ALL")
     d = tempfile.mkdtemp(prefix="symxq_", dir=os.environ.get("SYMX_TMP", "/dev/shm" if os.path.isdir("/dev/shm") else None))
     path = os.path.join(d, "q.smt2")
